@@ -253,6 +253,19 @@ def run(ctx, ck) -> None:
             ck.expect('N3', others == env.get('new_operands'), hfn, 'exactly one scalar operator remains, next to the non-scalar operands in order',
                       f'the result keeps {show(others)} besides the merged scalar', instance=f'one scalar {"left" if left_side else "right"}', nontrivial=False)
     ck.floor('N3', placed, 2, 'scalar placement returns')
+    ops_name = hfn.args.args[1].arg
+    nunchanged = 0
+    for p in function_paths(hfn):
+        if p.exit != 'return' or term(p.node.value, path_env(p)) != ('var', ops_name):
+            continue
+        nunchanged += 1
+        fs = path_facts(p)
+        env = path_env(p)
+        count_t = env.get('homothety_number')
+        few = any(f[0] == 'truth' and f[2] is True and f[1] == ('cmp', 'lt', ('call', ('var', 'len'), (('var', ops_name),), ()), ('const', '2')) for f in fs)
+        counted = any(f[0] == 'eq' and any(isinstance(x, tuple) and x[0] == 'const' and x[1] in ('0', '1') for x in f[1]) and any(x == count_t for x in f[1]) for f in fs) and count_t is not None
+        ck.expect('N3', few or counted, hfn, 'the chain is returned unchanged only when it holds at most one scalar operator (counted over the whole chain)',
+                  'HomothetyRule returns the chain unchanged on a path where the number of scalar operators in the whole chain is not known to be 0 or 1: several scalar factors can remain', instance=f'unchanged return {nunchanged}')
 
     # ------------------------------------------------------------------ N4
     ident = table.by_name('IdentityOperator')
